@@ -206,6 +206,16 @@ class State:
         return z3.And(*self.pc) if self.pc else z3.BoolVal(True)
 
 
+class CaseOf(list):
+    """clause extra: a list of hypotheses t == v (a case of an exhaustive case split) that are, in addition, substituted
+    into the obligation before it goes to the solver -- `hyps /\\ t == v |- goal` is proved as `hyps[v/t] /\\ t == v
+    |- goal[v/t]`, the same statement, but the size-dependent ite chains collapse before bit-blasting"""
+
+    def __init__(self, pairs):
+        list.__init__(self, [t == v for t, v in pairs])
+        self.pairs = list(pairs)
+
+
 def _norm(entries):
     """contract clauses: (label, formula) or (label, formula, extra) where extra is 'callers'
     (a precondition clause only callers must establish; not assumed when verifying the body)
@@ -320,6 +330,9 @@ class Contract:
     def witness(self, c):    # -> {name: term} values of interest for replay
         return {}
 
+    def ghost_update(self, c):    # -> {ghost key: new value}: ghost assignments made at every return (c.new, c.result)
+        return {}                 #    before the postcondition and the frame are checked (the keys must be in the frame)
+
     def post_witness(self, c):   # -> {name: term} over the state at a return (c.new, c.result): for known-finding conditions
         return {}
 
@@ -365,7 +378,10 @@ class Frame:
 
 class LoopSpec:
     def __init__(self, invariant=None, unroll=None, raw=None, summarise=False, assume_exit=False, readonly=False,
-                 keep_fields=False):
+                 keep_fields=False, ghost_update=None):
+        self.ghost_update = ghost_update  # fn(c, state at the head of the iteration, state at its end) -> {ghost key: value}:
+        #                                 ghost assignments made at the end of every iteration, before the invariant is
+        #                                 checked again (ghost variables are never written by the code)
         self.keep_fields = keep_fields  # summarised loops only: the struct-field heaps are NOT made arbitrary; allowed
         #                               only when the loop-body contract of the same loop declares keep_fields too,
         #                               which makes "every field heap after one iteration is the one before it" an
@@ -496,6 +512,8 @@ class Exec:
             w.update(witness)
         o = Ob(name, list(self.global_hyps) + list(st.pc) + list(hyps_extra), goal, kind=kind,
                fn=self.fname, line=line, witness=w)
+        if isinstance(hyps_extra, CaseOf):
+            o.meta['subst'] = hyps_extra.pairs
         self.obs.append(o)
         return o
 
@@ -562,6 +580,10 @@ class Exec:
     # select under those hypotheses (which every obligation carries); anything else is left as a select.
     def _stack_split(self, a):
         off = 0
+        if not self.stack_syms:
+            return None
+        if z3.is_app(a) and a.num_args() and not z3.is_const(a):
+            a = z3.simplify(a)            # (`aa + (0 + 1) * 8` is `aa + 8`)
         while z3.is_app(a) and a.decl().kind() == z3.Z3_OP_BADD and a.num_args() == 2:
             x, y = a.arg(0), a.arg(1)
             if z3.is_bv_value(y):
@@ -1078,6 +1100,8 @@ class Exec:
         # post-conditions per return
         for (rst, rval, rline) in self.returns:
             c = Ctx(self, args, self.st0, rst, rval)
+            for gk, gv in self.contract.ghost_update(c).items():
+                rst.ghost[gk] = gv
             pw = self.contract.post_witness(c)
             for label, g, extra in _norm(self.contract.post(c)):
                 self.ob('ensures', rline, label, rst, g, hyps_extra=extra or (), witness=pw)
@@ -1502,7 +1526,9 @@ class Exec:
             acc['vars'].add(did)
         elif lhs.get('kind') == 'MemberExpr':
             acc['fields'] = True
-            acc['raw'] = True         # (a member of a local struct / an array inside a struct lives in bytes)
+            ft = self.tu.ctype_of(lhs)
+            if not lhs.get('isArrow') or ft.kind not in ('int', 'ptr'):
+                acc['raw'] = True     # (a member of a local struct / a float or array member lives in bytes)
         else:
             acc['raw'] = True
 
@@ -1627,6 +1653,9 @@ class Exec:
                 cur.assume(cv)
             c_end = Ctx(self, self.args, self.st0, cur)
             c_end.entry = st
+            if spec.ghost_update is not None:
+                for gk, gv in spec.ghost_update(c_end, head, cur).items():
+                    cur.ghost[gk] = gv
             for label, g, extra in _norm(spec.invariant(c_end, cur)):
                 self.ob('loop-preserved', line, 'loop%d:%s' % (ordinal, label), cur, g, hyps_extra=extra or ())
             if spec.readonly:
@@ -1901,7 +1930,17 @@ class Exec:
                 raise NotSupported("int -> long double")
             return z3.fpSignedToFP(z3.RNE(), v, sort_of(tt)) if ts.signed else z3.fpUnsignedToFP(z3.RNE(), v, sort_of(tt))
         if ck == 'FloatingToIntegral':
-            raise NotSupported("float -> int conversion (range UB not modelled)")
+            if not z3.is_fp(v):
+                raise NotSupported("long double -> int conversion")
+            bits = tt.size * 8
+            lo = -(2.0 ** (bits - 1)) if tt.signed else -1.0
+            hi = 2.0 ** (bits - 1) if tt.signed else 2.0 ** bits
+            srt = v.sort()
+            # C11 6.3.1.4: undefined unless the truncated value fits (lo-ish < v < hi, v not NaN)
+            self.ub(n, st, 'float-to-integer-in-range',
+                    z3.And(z3.Not(z3.fpIsNaN(v)), z3.fpGT(v, z3.FPVal(lo - (0.0 if not tt.signed else 1.0), srt)) if tt.signed
+                           else z3.fpGT(v, z3.FPVal(-1.0, srt)), z3.fpLT(v, z3.FPVal(hi, srt))))
+            return z3.fpToSBV(z3.RTZ(), v, z3.BitVecSort(bits)) if tt.signed else z3.fpToUBV(z3.RTZ(), v, z3.BitVecSort(bits))
         if ck == 'FloatingCast':
             if ts.size in (4, 8) and tt.size in (4, 8):
                 return z3.fpFPToFP(z3.RNE(), v, sort_of(tt))
@@ -2068,7 +2107,22 @@ class Exec:
         return self.arith(op, a, b, t, n, st, lt, rt)
 
     def assign_record(self, loc, R, st):
-        raise NotSupported("struct assignment")
+        """`a = b` for aggregates held in memory: member-wise copy of the scalar members (each in the heap its
+        ordinary accesses use)"""
+        src = self.ev(R, st)                 # the value of an aggregate is its address
+        t = loc.ctype
+        if loc.kind != 'mem' or t.kind != 'record':
+            raise NotSupported("struct assignment to a non-memory lvalue")
+        for fname, (off, ft, bits_) in self.tu.layout(t.name)[2].items():
+            if bits_ is not None or ft.kind not in ('int', 'ptr', 'float'):
+                raise NotSupported("struct assignment with bit-field / aggregate members")
+            if ft.kind == 'float':
+                v = self.load(st, Loc('mem', ft, src + BV(off, 64)))
+                self.store(st, Loc('mem', ft, loc.a + BV(off, 64)), v)
+            else:
+                v = self.load(st, Loc('field', ft, src, t.name, off))
+                self.store(st, Loc('field', ft, loc.a, t.name, off), v)
+        return src
 
     def ev_CompoundAssignOperator(self, n, st):
         op = n['opcode'][:-1]
